@@ -45,16 +45,19 @@ def parseRhs (toks : List String) : Option (Rhs × List String) :=
 
 def ones (n : Nat) : List Float := List.replicate n 1.0
 
-/-- one `attemptDAEStep` of the named method from `(t0,y0)` to `t1`: `(y1, yErrEst)` -/
-def attemptStep (method : String) (r : Rhs) (t0 t1 : Float) (y0 : FV) : FV × FV :=
+/-- `TinyReal = pow(eps, 1.25)` -/
+def tinyReal : Float := Float.pow 2.220446049250313e-16 1.25
+
+/-- one `attemptDAEStep` of the named method from `(t0,y0)` to `t1`: `(y1, yErrEst, converged)` -/
+def attemptStep (method : String) (r : Rhs) (acc t0 t1 : Float) (y0 : FV) : FV × FV × Bool :=
   let f := r.eval
   let f0 := f t0 y0
   match method with
-  | "merson" => mersonStep LV.abs f t0 t1 y0 f0
-  | "rkf"    => rkfStep f t0 t1 y0 f0
-  | "rk3"    => rk3Step LV.abs f t0 t1 y0 f0
-  | "rk2"    => rk2Step LV.abs f t0 t1 y0 f0
-  | "euler"  => eulerStep f t0 t1 y0 f0
+  | "merson" => let s := mersonStep LV.abs f t0 t1 y0 f0; (s.1, s.2, true)
+  | "rkf"    => let s := rkfStep f t0 t1 y0 f0; (s.1, s.2, true)
+  | "rk3"    => let s := rk3Step LV.abs f t0 t1 y0 f0; (s.1, s.2, true)
+  | "rk2"    => let s := rk2Step LV.abs f t0 t1 y0 f0; (s.1, s.2, true)
+  | "euler"  => let s := eulerStep f t0 t1 y0 f0; (s.1, s.2, true)
   | _ =>
     -- partitioned methods: y = (q,u,z)
     let nq := r.nq
@@ -69,14 +72,22 @@ def attemptStep (method : String) (r : Rhs) (t0 t1 : Float) (y0 : FV) : FV × FV
       (⟨(d.xs.drop nq).take nq⟩, ⟨d.xs.drop (2 * nq)⟩)
     if method == "see2" then
       let s := see2Step nmul g t0 t1 q0 u0 z0 ud0 zd0
-      (⟨s.1.1.xs ++ s.1.2.1.xs ++ s.1.2.2.xs⟩, ⟨s.2.1.xs ++ s.2.2.1.xs ++ s.2.2.2.xs⟩)
+      (⟨s.1.1.xs ++ s.1.2.1.xs ++ s.1.2.2.xs⟩, ⟨s.2.1.xs ++ s.2.2.1.xs ++ s.2.2.2.xs⟩, true)
+    else if method == "verlet" then
+      let qd0 : FV := ⟨f0.xs.take nq⟩
+      let deriv : Float → FV → FV → FV → FV × FV × FV := fun t q u z =>
+        let d := f t ⟨q.xs ++ u.xs ++ z.xs⟩
+        (⟨d.xs.take nq⟩, ⟨(d.xs.drop nq).take nq⟩, ⟨d.xs.drop (2 * nq)⟩)
+      -- the harness system sets qdotdot = udot
+      let s := verletStep (LV.norm Float.sqrt) tinyReal acc deriv t0 t1 q0 u0 z0 qd0 ud0 zd0 ud0
+      (⟨s.1.1.xs ++ s.1.2.1.xs ++ s.1.2.2.xs⟩, ⟨s.2.1.1.xs ++ s.2.1.2.1.xs ++ s.2.1.2.2.xs⟩, s.2.2)
     else
       let s := seeStep nmul t0 t1 q0 u0 z0 ud0 zd0
-      (⟨s.1.xs ++ s.2.1.xs ++ s.2.2.xs⟩, ⟨y0.xs.map (fun _ => 0.0)⟩)
+      (⟨s.1.xs ++ s.2.1.xs ++ s.2.2.xs⟩, ⟨y0.xs.map (fun _ => 0.0)⟩, true)
 
 def errOrderOf (method : String) : Nat :=
   match method with
-  | "merson" => 4 | "rkf" => 4 | "rk3" => 3 | "rk2" => 2 | "euler" => 2 | "see2" => 2 | _ => 1
+  | "merson" => 4 | "rkf" => 4 | "rk3" => 3 | "verlet" => 3 | "rk2" => 2 | "euler" => 2 | "see2" => 2 | _ => 1
 
 /-- `calcErrorNorm` on the estimate of a step that started at `y0` -/
 def stepErrNorm (useInf : Bool) (r : Rhs) (y0 err : FV) : Float :=
@@ -86,18 +97,19 @@ def stepErrNorm (useInf : Bool) (r : Rhs) (y0 err : FV) : Float :=
   errNorm Float.sqrt useInf (ones nq) (relScale u0 (ones nq)) (relScale z0 (ones r.nz))
     (err.xs.take nq) ((err.xs.drop nq).take nq) (err.xs.drop (2 * nq))
 
+def inf : Float := 1.0 / 0.0
+
 def optOf (x : Float) : Option Float := if x == -1.0 then none else some x
 
 /-- the whole `takeOneStep` of an error-controlled method -/
 def controlledStep (method : String) (useInf : Bool) (r : Rhs) (acc t0 : Float) (y0 : FV)
     (hcur tMax : Float) (umin umax : Option Float) : StepResult Float FV :=
   let attempt : Float → FV × Float × Bool := fun t1 =>
-    let a := attemptStep method r t0 t1 y0
-    let en := stepErrNorm useInf r y0 a.2
+    let a := attemptStep method r acc t0 t1 y0
+    -- a step that did not converge is given the error norm Infinity by takeOneStep
+    let en := if a.2.2 then stepErrNorm useInf r y0 a.2.1 else inf
     (a.1, en, en.isFinite)
   takeOneStep Float.pow acc umin umax (errOrderOf method) attempt t0 tMax 60 hcur 0
-
-def inf : Float := 1.0 / 0.0
 
 def doTraj (toks : List String) : String :=
   match toks with
@@ -113,7 +125,7 @@ def doTraj (toks : List String) : String :=
         let (t, y, out) := st
         if method == "see" then
           let c := chooseT1 t h inf
-          let a := attemptStep method r t c.1 y
+          let a := attemptStep method r 1e-3 t c.1 y
           (c.1, a.1, out ++ [c.1] ++ a.1.xs)
         else
           let s := controlledStep method false r 1e-3 t y h inf (some h) (some h)
@@ -151,7 +163,7 @@ def istepLoop (method : String) (useInf : Bool) (r : Rhs) (acc : Float) (umin um
     let (t1, y1, hn) :=
       if method == "see" then
         let c := chooseT1 t h inf
-        (c.1, (attemptStep method r t c.1 y).1, h)
+        (c.1, (attemptStep method r acc t c.1 y).1, h)
       else
         let s := controlledStep method useInf r acc t y h inf umin umax
         (s.t1, s.y1, s.nextStep)
